@@ -37,6 +37,8 @@ const B: &[&str] = &[
     "pub type T { T(v: Int) }\npub fn inc(n: Int) -> Int { n + 1 }\n",
     "pub fn inc(n: Int -> Int { n + 1 \npub type T { T(v: Int) }\n",
     "",
+    // imports names from `a` unqualified: with a's version 11 (which imports from `b` unqualified) the two modules import from each other
+    "import a.{both}\npub fn inc(n: Int) -> Int { n + 1 }\npub type T { T(v: Int) }\npub fn back(y) { both(y) }\n",
 ];
 
 const C: &[&str] = &["import a\npub fn use_a() { a.main() }\n", "import a\nimport b\npub fn use_a(t: b.T) { #(a.both(t), t.v) }\n"];
@@ -251,7 +253,9 @@ fn sweep_files(host: &AnalysisHost, files: &[(FileId, &'static str, String)], qu
             let s = match run_query(&an, q, f, o).outcome {
                 Outcome::Ok(s) => s,
                 Outcome::Cancelled => "<cancelled>".into(),
-                Outcome::Panic(m) => format!("<panic {m}>"),
+                // which query of a cycle notices it first depends on what is memoised: a failing
+                // query is compared as failing, not by its message (failing at all is C10's matter)
+                Outcome::Panic(_) => "<panic>".to_string(),
             };
             (f, o, q, s)
         })
@@ -474,6 +478,63 @@ pub fn run(tier: Tier) -> i32 {
             }
         }
         l.bound = format!("all sequences of 2..={k} changes ({} each) whose deltas travel in ONE Change object, with the full query menu run before the batch or not; final sweep stride {stride}", chgs.len());
+        rep.layer(l);
+    }
+    // histories through a workspace whose two modules import names from each other (a transient
+    // state while code is moved between modules): three steps over the five changes that make
+    // and break the cycle, every query menu after every step
+    {
+        let cyc: Vec<Chg> = vec![Chg::SetA(11), Chg::SetB(B.len() - 1), Chg::SetA(0), Chg::SetB(0), Chg::SetA(4)];
+        let mut hists: Vec<Vec<(Chg, Menu)>> = vec![vec![]];
+        for _ in 0..3 {
+            let mut next = vec![];
+            for h in &hists {
+                for c in &cyc {
+                    for m in MENUS {
+                        let mut h2 = h.clone();
+                        h2.push((*c, *m));
+                        next.push(h2);
+                    }
+                }
+            }
+            hists = next;
+        }
+        // only histories that pass through the cyclic state
+        let hists: Vec<Vec<(Chg, Menu)>> = hists
+            .into_iter()
+            .filter(|h| {
+                let (mut a, mut b) = (0usize, 0usize);
+                let mut cyclic = false;
+                for (c, _) in h {
+                    match c {
+                        Chg::SetA(v) => a = *v,
+                        Chg::SetB(v) => b = *v,
+                        _ => {}
+                    }
+                    cyclic |= a == 11 && b == B.len() - 1;
+                }
+                cyclic
+            })
+            .collect();
+        let res: Vec<(Option<Violation>, bool, u64)> = hists
+            .par_iter()
+            .map(|h| match crate::core::catch(|| eval_history(h, stride)) {
+                Ok((v, changed, q)) => (v.map(|(class, key, detail)| Violation { class, key: format!("import-cycle|{key}"), witness: json!({"history": hist_json(h)}), detail: format!("history {:?} (through two modules importing from each other): {detail}", h) }), changed, q),
+                Err(m) => (Some(Violation { class: "panic".into(), key: crate::core::panic_class(&m), witness: json!({"history": hist_json(h)}), detail: format!("history {h:?} panicked: {m}") }), false, 0),
+            })
+            .collect();
+        let mut l = Layer { name: "import-cycle-histories".into(), states: hists.len() as u64, exhaustive: true, ..Default::default() };
+        for (v, changed, q) in res {
+            l.transitions += q;
+            l.executions += 1;
+            if changed {
+                total_changed += 1;
+            }
+            if let Some(v) = v {
+                rep.violation(v);
+            }
+        }
+        l.bound = format!("all histories of 3 (change, query-menu) steps over the 5 changes that make and break an import cycle between a and b (a imports names from b, b imports names from a; plus the plain versions of both and a version of a without imports) x all 6 menus that pass through the cyclic state: {} histories; queries in the cyclic state may fail, the final answers must equal a fresh instance's", hists.len());
         rep.layer(l);
     }
     seeds_layer(&mut rep, tier);
